@@ -16,9 +16,11 @@
      of every value type (literals, index, slice, dot, concatenation,
      repetition, ==), any-wrapping and type assertion, declarations, assignment
      to variables / array elements / map entries (index and dot targets),
-     calls of the modelled built-ins (print sprint read cls sleep len has del
-     typeof str2num str2bool exit panic join startswith endswith min max abs
-     sqrt and the simple graphics calls) and of the program's own functions
+     calls of the built-ins Sem.v models (print printf sprint sprintf read cls sleep
+     len has del typeof str2num str2bool exit panic join split upper lower index trim
+     replace startswith endswith min max abs sqrt floor ceil round pow log sin cos atan2
+     rand rand1 hsl, the graphics calls circle width move line rect color colour stroke
+     fill linecap text, and test) and of the program's own functions
      (fixed and variadic parameters, return with and without value, recursion,
      reads and assignments of globals), if / else, while, for over step
      ranges, arrays, strings and maps, break.  C02_soundness_modulo_overflow_partial:
@@ -26,7 +28,14 @@
      overflow of String/Equals/deepCopy on a value that contains itself.
    Event handlers (C02_handlers_partial, C02_handlers_modulo_overflow_partial): an event
    delivered in the state a normally ended run (or an earlier event) leaves is handled
-   without going wrong.  The test built-in is inside both fragments; outside: the un-modelled built-ins.  The full statement [soundness_full] is REFUTED
+   without going wrong.  Outside both fragments: calls of the eight built-ins Sem.v does not model
+   (repr clear grid gridn poly ellipse dash font; C02_builtins_outside_fragment computes the list
+   from the signature table).  The model answers ENeedOracle where the implementation consults
+   something the model does not compute (number formatting, fmt.Sprintf on numbers or non-printable
+   strings, libm, the PRNG, unicode case mapping, NaN / signed-zero min/max, huge allocations),
+   EOutOfFuel when the fuel is used up: such a run is NOT going wrong in the theorems, which
+   therefore say nothing about what the implementation does from that point on.
+   The full statement [soundness_full] is REFUTED
    on the model (and on the implementation): C02_soundness_full_refuted. *)
 From Coq Require Import ZArith NArith List String Bool.
 From EvyV Require Import Base Num Ast Omap Sem Static SemSound.
@@ -114,6 +123,25 @@ Theorem C02_preservation_partial : forall strict Gg,
   end.
 Proof. exact preservation_generic. Qed.
 Print Assumptions C02_preservation_partial.
+
+(* the signature lemma of the built-ins of the fragment (Static.s1_builtins; strict = true / false):
+   called with argument cells of the argument types the checker accepted for its signature, a
+   built-in returns a cell of the signature's result type (none: a none cell) under an extension of
+   the store typing that still types heap and environment, or ends with an error that is not
+   internal and is a host crash only for strict = false and a stack overflow on a cyclic value
+   (String() of a composite printf / sprintf / print / join operand).  Evy panics ("bad arguments"
+   of printf / sprintf without a string format, of hsl, rand, len), exit, and ENeedOracle are such
+   errors. *)
+Theorem C02_builtin_signature_partial : forall strict Gg P S G e s name vals m sg ts,
+  builtin name e vals = Some m -> mem_str name s1_builtins = true -> builtin_sig name = Some sg ->
+  sig_args_ok sg ts = true -> Forall2 (fun l t => sfind S l = Some t) vals ts ->
+  genv_ok strict Gg P G -> inv strict Gg S G e s ->
+  match m s with
+  | (Ok r, s') => exists S' l, r = Some l /\ ext S S' /\ inv strict Gg S' G e s' /\ sfind S' l = Some (fs_ret sg)
+  | (Er er, _) => safe_err strict er
+  end.
+Proof. exact builtin_sound. Qed.
+Print Assumptions C02_builtin_signature_partial.
 
 (* a value stored in an any carries a concrete non-any type, and its content
    has exactly that dynamic type; any-cells occur only at type any *)
@@ -263,6 +291,42 @@ Example C02_ex_handler_run :
   o = ODone /\
   match st_trace s2 with
   | EvPrint p :: _ => pieces_str p = Some (s_ "a 1" ++ [10%N])
+  | _ => False end.
+Proof. vm_compute. split; reflexivity. Qed.
+
+(* the built-ins of the signature table that a program of the fragment may not call: exactly the
+   eight Sem.v does not model *)
+Example C02_builtins_outside_fragment :
+  map fst (filter (fun p => negb (call_frag (fst p))) builtin_sigs)
+  = map s_ ["clear"; "dash"; "ellipse"; "font"; "grid"; "gridn"; "poly"; "repr"]%string.
+Proof. vm_compute. reflexivity. Qed.
+
+(*  w := split "a,b" ","  /  s := sprintf "%s-%v|%5s" w[0] true (upper w[1])  /  printf "%s %v\n" s w  /
+    print (sprintf 1)
+    string built-ins, sprintf and printf (a composite operand is printed by String()); the last call has
+    no string format: the evy panic "bad arguments", not going wrong *)
+Definition ex_fmt : program :=
+  {| p_funcs := []; p_handlers := [];
+     p_stmts :=
+       [SDecl (s_ "w") (TArr TStr) (ECall (s_ "split") (TArr TStr) [EStr (s_ "a,b"); EStr (s_ ",")]);
+        SDecl (s_ "s") TStr
+          (ECall (s_ "sprintf") TStr
+             [EAny (EStr (s_ "%s-%v|%5s")) TStr;
+              EAny (EIndex TStr (v_ "w" (TArr TStr)) n0) TStr;
+              EAny (EBool true) TBool;
+              EAny (EGroup (ECall (s_ "upper") TStr [EIndex TStr (v_ "w" (TArr TStr)) n1])) TStr]);
+        SCallStmt (s_ "printf")
+          [EAny (EStr (s_ "%s %v" ++ [10%N])) TStr; EAny (v_ "s" TStr) TStr; EAny (v_ "w" (TArr TStr)) (TArr TStr)];
+        SCallStmt (s_ "print") [EAny (EGroup (ECall (s_ "sprintf") TStr [EAny n1 TNum])) TStr]] |}.
+
+Example C02_ex_fmt_hyps : wt_program ex_fmt = true /\ s1_program ex_fmt = true.
+Proof. vm_compute. split; reflexivity. Qed.
+
+Example C02_ex_fmt_run :
+  let '(o, s) := run_program 300 ex_fmt s0_ in
+  o = OErr (EPanic PkBadArguments) /\
+  match st_trace s with
+  | EvPrint p :: _ => pieces_str p = Some (s_ "a-true|    B [a b]" ++ [10%N])
   | _ => False end.
 Proof. vm_compute. split; reflexivity. Qed.
 
